@@ -1,8 +1,164 @@
-import ErdosVerif.Model.Ledger
-/-! C04 — resource ledger conservation (theorems added incrementally). -/
+import ErdosVerif.Lemmas.LedgerPool
+import ErdosVerif.Lemmas.LedgerCopy
+/-!
+# C04 — resource ledger conservation: nothing leaks, nothing is double-counted
+
+Model: `ErdosVerif.Model.Ledger` (`Resources`, `Worker`, `Pool`, `Op`, `Pool.run`).
+A history is *any* list of operations (raw `Resources` calls, worker and pool
+API calls, in any order, including calls that raise); exceptions do not stop the
+caller, the state at the raise point is kept.
+
+Everything here is proved for every pool, every history and every request; the
+only hypothesis is that the worker's resource vector has no duplicate key,
+which is what a Python `dict` guarantees (`initial_inv`).
+-/
 namespace ErdosVerif.C04
 open ErdosVerif.Model
 
-theorem placeholder : (Resources.ofVec []).avail = [] := rfl
+/-- What `WorkerLoader` builds satisfies the invariant: a dict has no duplicate keys. -/
+theorem initial_inv (vs : List Vec) (h : ∀ v ∈ vs, (AList.keys v).Nodup) :
+    (⟨vs.map Worker.ofVec, []⟩ : Pool).Inv := by
+  intro w hw
+  simp only [List.mem_map] at hw
+  obtain ⟨v, hv, rfl⟩ := hw
+  exact Resources.inv_ofVec v (h v hv)
+
+/-- **Conservation** — for any sequence of operations on a pool, for every worker
+and every exact resource key: available + allocated (over all tasks, batches and
+profiles) = configured total. -/
+theorem conservation (p : Pool) (ops : List Op) (h : p.Inv) :
+    ∀ w ∈ (p.run ops).workers, ∀ k : Res,
+      getQ w.res.avail k + allocAt w.res.allocs k = getQ w.res.total k :=
+  fun w hw k => (Pool.inv_run p ops h w hw).conserve k
+
+/-- Conservation per resource *type* (all instances of a name together). -/
+theorem conservation_by_type (p : Pool) (ops : List Op) (h : p.Inv) :
+    ∀ w ∈ (p.run ops).workers, ∀ n : String,
+      byName w.res.avail n + allocByName w.res.allocs n = byName w.res.total n :=
+  fun w hw n => Resources.conserve_byName w.res (Pool.inv_run p ops h w hw) n
+
+/-- Nothing is double-counted: what is held never exceeds the configured capacity. -/
+theorem never_overallocated (p : Pool) (ops : List Op) (h : p.Inv) :
+    ∀ w ∈ (p.run ops).workers, ∀ n : String, allocByName w.res.allocs n ≤ byName w.res.total n := by
+  intro w hw n
+  have := conservation_by_type p ops h w hw n
+  omega
+
+/-- The totals never change under worker / pool API calls or (de)allocations
+(only `add_resource` extends them): stated for the key list. -/
+theorem keys_stable (p : Pool) (ops : List Op) (h : p.Inv) :
+    ∀ w ∈ (p.run ops).workers, AList.keys w.res.avail = AList.keys w.res.total :=
+  fun w hw => (Pool.inv_run p ops h w hw).keys_eq
+
+/-- **Removing everything restores full capacity**: a ledger with no entry means
+the availability vector *is* the total vector. -/
+theorem empty_full (p : Pool) (ops : List Op) (h : p.Inv) :
+    ∀ w ∈ (p.run ops).workers, w.res.allocs = [] → w.res.avail = w.res.total :=
+  fun w hw he => Resources.empty_full w.res (Pool.inv_run p ops h w hw) he
+
+/-! ### a refused request changes nothing (exact state equality) -/
+
+theorem refusal_noop_allocate (r : Resources) (k : Res) (c : Comp) (q : Nat)
+    (hr : (r.allocate k c q).2 ≠ .ok) : (r.allocate k c q).1 = r :=
+  Resources.allocate_refused r k c q hr
+
+theorem refusal_noop_allocate_multiple (r : Resources) (req : Vec) (c : Comp) (h : r.Inv)
+    (hr : (r.allocateMultiple req c).2 ≠ .ok) : (r.allocateMultiple req c).1 = r :=
+  Resources.allocateMultiple_refused r req c h hr
+
+theorem refusal_noop_deallocate (r : Resources) (c : Comp)
+    (hr : (r.deallocate c).2 ≠ .ok) : (r.deallocate c).1 = r :=
+  Resources.deallocate_refused r c hr
+
+theorem refusal_noop_place (w : Worker) (t : Nat) (s : Strategy) (h : w.res.Inv)
+    (hr : (w.placeTask t s).2 ≠ .ok) : (w.placeTask t s).1 = w :=
+  Worker.placeTask_refused w t s h hr
+
+theorem refusal_noop_load (w : Worker) (p : Nat) (s : Strategy) (h : w.res.Inv)
+    (hr : (w.loadProfile p s).2 ≠ .ok) : (w.loadProfile p s).1 = w :=
+  Worker.loadProfile_refused w p s h hr
+
+theorem refusal_noop_evict (w : Worker) (p : Nat)
+    (hr : (w.evictProfile p).2 ≠ .ok) : (w.evictProfile p).1 = w :=
+  Worker.evictProfile_refused w p hr
+
+/-- PARTIAL: removal of a task placed with a plain (non-batch) strategy.
+Full statement (not proved): the same for batch members; it needs the
+bookkeeping invariant "every placed batch has its placeholder in the ledger",
+which the correspondence suite and the oracle check on the implementation. -/
+theorem refusal_noop_remove_partial (w : Worker) (t : Nat)
+    (hs : ∀ s, AList.get? w.placed t = some s → s.isBatch = false)
+    (hr : (w.removeTask t).2 ≠ .ok) : (w.removeTask t).1 = w :=
+  Worker.removeTask_refused w t hs hr
+
+/-! ### deallocation is exact -/
+
+/-- `deallocate` gives back exactly the quantities recorded for the computation. -/
+theorem dealloc_returns_recorded (r : Resources) (c : Comp) (l : List (Res × Nat))
+    (hg : AList.get? r.allocs c = some l) (x : Res) :
+    getQ (r.deallocate c).1.avail x = getQ r.avail x + pairsAt l x :=
+  Resources.deallocate_getQ r c l hg x
+
+/-- Allocate-then-deallocate restores the exact pre-allocation state. -/
+theorem dealloc_exact (r : Resources) (req : Vec) (c : Comp) (h : r.Inv)
+    (hc : c ∉ AList.keys r.allocs) (hok : (r.allocateMultiple req c).2 = .ok) :
+    (r.allocateMultiple req c).1.deallocate c = (r, .ok) :=
+  Resources.deallocate_allocateMultiple r req c h hc hok
+
+/-- A successful allocation of `q` units of key `k` charges exactly `q` units of
+type `k.name` (and nothing of any other type) to the ledger. -/
+theorem allocate_amount (r : Resources) (k : Res) (c : Comp) (q : Nat) (n : String)
+    (hok : (r.allocate k c q).2 = .ok) :
+    allocByName (r.allocate k c q).1.allocs n = allocByName r.allocs n + (if k.name = n then q else 0) :=
+  Resources.allocate_allocByName r k c q n hok
+
+/-! ### copies -/
+
+/-- A deep copy is an independent *empty* cluster with the same totals. -/
+theorem deepcopy_empty (w : Worker) :
+    w.deepcopy.res.avail = w.res.total ∧ w.deepcopy.res.total = w.res.total ∧
+    w.deepcopy.res.allocs = [] ∧ w.deepcopy.placed = [] ∧ w.deepcopy.batches = [] ∧
+    w.deepcopy.availProf = [] ∧ w.deepcopy.pendProf = [] :=
+  Worker.deepcopy_empty w
+
+/-- A shallow copy keeps the placed tasks, batches and profiles … -/
+theorem copy_residents (w : Worker) :
+    w.copy.1.placed = w.placed ∧ w.copy.1.batches = w.batches ∧ w.copy.1.batchTask = w.batchTask ∧
+    w.copy.1.availProf = w.availProf ∧ w.copy.1.pendProf = w.pendProf :=
+  Worker.copy_residents w
+
+/-- … has the same totals and the same availability per resource type … -/
+theorem copy_same_occupancy (r r' : Resources) (h : r.Inv) (hc : r.copy = (r', .ok)) (n : String) :
+    r'.total = r.total ∧ byName r'.avail n = byName r.avail n :=
+  Resources.copy_same_occupancy r r' h hc n
+
+/-- … and is itself a consistent ledger, so every theorem above applies to any
+history run on the copy (independence of copy and original is structural in
+the model: values are immutable; the correspondence suite applies divergent
+histories to both and compares each with its own model object). -/
+theorem copy_inv (p : Pool) (h : p.Inv) : p.copy.1.Inv ∧ p.deepcopy.Inv :=
+  ⟨Pool.inv_copy p h, Pool.inv_deepcopy p h⟩
+
+/-! ### non-vacuity -/
+
+/-- A worker with two instances of one type and an `any` entry satisfies the hypothesis. -/
+example : (⟨[[(⟨"GPU", some 1⟩, 1), (⟨"GPU", some 2⟩, 1), (⟨"CPU", none⟩, 4)]].map Worker.ofVec, []⟩ : Pool).Inv :=
+  initial_inv _ (by decide)
+
+/-- A refused `allocate_multiple` exists (so the refusal theorems are not vacuous):
+`GPU:any` + `GPU:1` on a worker with a single GPU passes the per-key check and
+fails in the second phase; the state is exactly restored. -/
+example :
+    let r := Resources.ofVec [(⟨"GPU", some 1⟩, 1)]
+    r.allocateMultiple [(⟨"GPU", none⟩, 1), (⟨"GPU", some 1⟩, 1)] (.task 7) = (r, .raised .valueError) := by
+  decide
+
+/-- A successful place / remove round trip on a concrete worker. -/
+example :
+    let w := Worker.ofVec [(⟨"GPU", some 1⟩, 1), (⟨"GPU", some 2⟩, 1)]
+    let s : Strategy := ⟨0, false, 1, 5, [(⟨"GPU", none⟩, 2)]⟩
+    (w.placeTask 3 s).2 = .ok ∧ (w.placeTask 3 s).1.res.avail = [(⟨"GPU", some 1⟩, 0), (⟨"GPU", some 2⟩, 0)]
+      ∧ ((w.placeTask 3 s).1.removeTask 3).1.res.avail = w.res.total := by
+  decide
 
 end ErdosVerif.C04
